@@ -29,6 +29,13 @@ enum Op {
     Commit,
     Rollback,
     EmptyKeySet,
+    /// another transaction writes this key and commits (first committer: the program's
+    /// transaction, if it has written the key too, must then be refused at commit)
+    Foreign(usize),
+    /// time-travel read inside the transaction: key, timestamp = clock - offset (or ahead of it)
+    GetAt(usize, i64),
+    /// soft delete stamped with an explicit timestamp (clock - offset)
+    SoftDeleteAt(usize, u64),
 }
 
 #[derive(Clone, Debug)]
@@ -86,6 +93,9 @@ struct Store {
     cfg: Cfg,
     next_txn: u64,
     seed: u64,
+    /// keys that some committed transaction wrote more than once: the model keeps only the last
+    /// write per key of a commit, so it does not know every version of these keys
+    multi: BTreeMap<Vec<u8>, u64>,
 }
 
 fn scan_tx(tx: &Transaction) -> Result<Vec<(Vec<u8>, Vec<u8>)>, String> {
@@ -114,7 +124,9 @@ async fn run_program(st: &mut Store, mode: Mode, prog: &[Op], stats: &mut (u64, 
     let mut committed = false;
     let writable = mode != Mode::ReadOnly;
     let readable = mode != Mode::WriteOnly;
-    let before_seq = st.tree.verif_visible_seq();
+    let mut before_seq = st.tree.verif_visible_seq();
+    // keys committed by other transactions since this one began
+    let mut foreign: BTreeSet<Vec<u8>> = BTreeSet::new();
     for (i, op) in prog.iter().enumerate() {
         stats.0 += 1;
         let now = st.clock.0.load(Ordering::SeqCst);
@@ -161,6 +173,67 @@ async fn run_program(st: &mut Store, mode: Mode, prog: &[Op], stats: &mut (u64, 
                     return Err(format!("op {}: set with an empty key was accepted", i));
                 }
             }
+            Op::SoftDeleteAt(k, off) => {
+                let ts = now.saturating_sub(*off).max(1);
+                let r = tx.soft_delete_with_options(&keys[*k], &surrealkv::WriteOptions::default().with_timestamp(Some(ts)));
+                write(&mut m, &keys[*k], Kind::SoftDelete, vec![], Some(ts), r)?;
+            }
+            Op::GetAt(k, off) if st.cfg.versioning => {
+                let t = if *off >= 0 { now.saturating_sub(*off as u64).max(1) } else { now + (-*off) as u64 };
+                let r = tx.get_at(&keys[*k], t);
+                let allowed = readable && !m.closed;
+                match (allowed, r) {
+                    (false, Err(_)) => {}
+                    (false, Ok(_)) => return Err(format!("op {}: get_at was accepted by a {} transaction", i, if m.closed { "closed".to_string() } else { format!("{:?}", m.mode) })),
+                    (true, Err(e)) => return Err(format!("op {}: get_at({}, {}) failed: {e}", i, hex(&keys[*k]), t)),
+                    (true, Ok(got)) => {
+                        // the transaction's latest pending write to the key decides if it is a
+                        // hard delete or stamped at or before t; a write stamped later than t is
+                        // "from the future" and the snapshot answers. A write that will be
+                        // stamped at commit time is judged only for t at or after the clock.
+                        let from_pending = |w: &PW| if w.kind.is_tombstone() { None } else { Some(w.value.clone()) };
+                        // The snapshot's own answer is only judged for keys whose committed
+                        // history is plain (sets and soft deletes, timestamps increasing in
+                        // commit order): these programs also stamp writes in the past and use
+                        // hard deletes / replaces, for which time-travel answers are C10's
+                        // business and partly unspecified.
+                        let plain = st.model.keys.get(&keys[*k]).map_or(true, |vs| {
+                            let vs: Vec<_> = vs.iter().filter(|v| v.seq <= h).collect();
+                            // what a hard delete or a replace erased does not matter any more
+                            let start = vs.iter().rposition(|v| matches!(v.kind, Kind::Delete | Kind::Replace)).unwrap_or(0);
+                            let barrier_seq = if vs.get(start).is_some_and(|v| matches!(v.kind, Kind::Delete | Kind::Replace)) { vs[start].seq } else { 0 };
+                            let tail = &vs[start.min(vs.len())..];
+                            st.multi.get(&keys[*k]).map_or(true, |ms| *ms < barrier_seq) && tail.iter().skip(1).all(|v| matches!(v.kind, Kind::Set | Kind::SoftDelete)) && tail.windows(2).all(|w| w[0].ts < w[1].ts)
+                        });
+                        let snapshot_answers = if plain { Some(st.model.get_at_acceptable(&keys[*k], t, h, &|_, _| true)) } else { None };
+                        let exp: Option<Vec<Option<Vec<u8>>>> = match m.latest(&keys[*k]) {
+                            Some(w) if w.kind == Kind::Delete => Some(vec![None]),
+                            Some(w) => match w.ts {
+                                Some(ts) if ts <= t => Some(vec![from_pending(w)]),
+                                Some(_) => snapshot_answers,
+                                None if t >= now => Some(vec![from_pending(w)]),
+                                None => None,
+                            },
+                            None => snapshot_answers,
+                        };
+                        if let Some(exp) = exp {
+                            if !exp.contains(&got) {
+                                return Err(format!(
+                                    "op {}: get_at({}, {}) inside the transaction = {:?} but its own view (latest pending write {:?}, snapshot at horizon {}) allows {:?}",
+                                    i,
+                                    hex(&keys[*k]),
+                                    t,
+                                    got.as_ref().map(|v| v.len()),
+                                    m.latest(&keys[*k]).map(|w| (w.kind.name(), w.ts, w.value.len())),
+                                    h,
+                                    exp.iter().map(|v| v.as_ref().map(|v| v.len())).collect::<Vec<_>>()
+                                ));
+                            }
+                        }
+                    }
+                }
+            }
+            Op::GetAt(..) => {}
             Op::Get(k) => {
                 let r = tx.get(&keys[*k]);
                 let allowed = readable && !m.closed;
@@ -272,6 +345,41 @@ async fn run_program(st: &mut Store, mode: Mode, prog: &[Op], stats: &mut (u64, 
                     (false, Ok(())) => return Err(format!("op {}: rollback_to_savepoint accepted although {}", i, if m.marks.is_empty() { "no savepoint is set" } else { "the transaction must reject it" })),
                 }
             }
+            Op::Foreign(k) => {
+                let fid = st.next_txn;
+                st.next_txn += 1;
+                let v = crate::model::mk_value(st.seed, fid, 0, 16);
+                let fm = TxModel { mode: Mode::ReadWrite, closed: false, pending: vec![PW { key: keys[*k].clone(), kind: Kind::Set, value: v.clone(), ts: None }], marks: vec![] };
+                let b = st.tree.verif_visible_seq();
+                let mut ftx = st.tree.begin().map_err(|e| e.to_string())?;
+                ftx.set(&keys[*k], &v).map_err(|e| e.to_string())?;
+                st.clock.0.fetch_add(1, Ordering::SeqCst);
+                let fnow = st.clock.0.load(Ordering::SeqCst);
+                ftx.commit().await.map_err(|e| format!("op {}: commit of an independent transaction failed: {e}", i))?;
+                let after = st.tree.verif_visible_seq();
+                verify_commit(st, &fm, fid, b, after, fnow)?;
+                before_seq = after;
+                foreign.insert(keys[*k].clone());
+            }
+            Op::Commit if writable && !m.closed && m.pending.iter().any(|w| foreign.contains(&w.key)) => {
+                // first committer wins: another transaction committed one of the written keys
+                // after this one began
+                let r = tx.commit().await;
+                match r {
+                    Err(surrealkv::Error::TransactionWriteConflict) | Err(surrealkv::Error::TransactionRetry) => {
+                        // the transaction is over; nothing of it is applied
+                        m.closed = true;
+                        m.pending.clear();
+                        m.marks.clear();
+                        let after = st.tree.verif_visible_seq();
+                        if after != before_seq {
+                            return Err(format!("op {}: a refused commit moved the visible sequence number from {} to {}", i, before_seq, after));
+                        }
+                    }
+                    Err(e) => return Err(format!("op {}: commit of a transaction that overlaps a committed writer of one of its keys failed with {e}, expected a write conflict", i)),
+                    Ok(()) => return Err(format!("op {}: commit accepted although another transaction committed one of its keys after it began (lost update)", i)),
+                }
+            }
             Op::Commit => {
                 st.clock.0.fetch_add(1, Ordering::SeqCst);
                 let now = st.clock.0.load(Ordering::SeqCst);
@@ -316,6 +424,9 @@ async fn run_program(st: &mut Store, mode: Mode, prog: &[Op], stats: &mut (u64, 
             Op::Commit => 'C',
             Op::Rollback => 'X',
             Op::EmptyKeySet => 'e',
+            Op::Foreign(_) => 'F',
+            Op::GetAt(..) => 'g',
+            Op::SoftDeleteAt(..) => 'd',
         });
     }
     if !m.closed {
@@ -430,6 +541,11 @@ fn verify_commit(st: &mut Store, m: &TxModel, txn_id: u64, before: u64, after: u
             }
         }
     }
+    for (i, w) in m.pending.iter().enumerate() {
+        if last.get(&w.key) != Some(&i) {
+            st.multi.insert(w.key.clone(), after);
+        }
+    }
     // model: the surviving set is not observable without versioning; use last-write-per-key in issue order
     let mut ops: Vec<(usize, (Kind, Vec<u8>, Vec<u8>, u64))> = last.iter().map(|(k, i)| (*i, (m.pending[*i].kind, k.clone(), m.pending[*i].value.clone(), m.pending[*i].ts.unwrap_or(now)))).collect();
     ops.sort_by_key(|x| x.0);
@@ -452,14 +568,20 @@ fn gen_program(r: &mut Rng, len: usize) -> Vec<Op> {
             33..=42 => Op::Delete(k),
             43..=48 => Op::SoftDelete(k),
             49..=54 => Op::Replace(k, vlen),
-            55..=68 => Op::Get(k),
+            55..=62 => Op::Get(k),
+            63..=66 => Op::GetAt(k, r.below(8) as i64 - 2),
+            67..=68 => Op::SoftDeleteAt(k, r.below(5)),
             69..=73 => Op::Scan,
             74..=83 => Op::Savepoint,
             84..=93 => Op::RollbackTo,
             94..=95 => Op::Commit,
             96 => Op::Rollback,
             97 => Op::EmptyKeySet,
-            _ => Op::Get(k),
+            98 => Op::Foreign(k),
+            _ => match r.below(3) {
+                0 => Op::SoftDeleteAt(k, r.below(5)),
+                _ => Op::GetAt(k, r.below(8) as i64 - 2),
+            },
         });
     }
     match r.below(10) {
@@ -473,11 +595,19 @@ fn gen_program(r: &mut Rng, len: usize) -> Vec<Op> {
         p.push(Op::Set(r.usize(nk), 12));
         p.push(Op::Commit);
     }
+    // one program in eight: another transaction commits a key this one has written (or will
+    // write), somewhere before the end; the commit is then refused and may be tried again
+    if r.chance(1, 8) && !p.is_empty() {
+        let at = r.usize(p.len());
+        p.insert(at, Op::Foreign(r.usize(nk)));
+        p.push(Op::Commit);
+        p.push(Op::Commit);
+    }
     p
 }
 
 fn small_alphabet() -> Vec<Op> {
-    vec![Op::Set(0, 12), Op::Set(1, 13), Op::Delete(0), Op::SoftDelete(1), Op::Replace(0, 14), Op::SetAt(0, 15, 2), Op::Get(0), Op::Savepoint, Op::RollbackTo, Op::Scan]
+    vec![Op::Set(0, 12), Op::Set(1, 13), Op::Delete(0), Op::SoftDelete(1), Op::Replace(0, 14), Op::SetAt(0, 15, 2), Op::Get(0), Op::Savepoint, Op::RollbackTo, Op::Scan, Op::Foreign(0), Op::Commit]
 }
 
 pub fn run(a: &Args) -> i32 {
@@ -528,7 +658,7 @@ pub fn run(a: &Args) -> i32 {
                     Ok(t) => t,
                     Err(e) => return Err((format!("open failed: {e}"), json!({}))),
                 };
-                let mut st = Store { tree, model: Model::new(), clock, cfg: cfg.clone(), next_txn: 1, seed: sseed };
+                let mut st = Store { tree, model: Model::new(), clock, cfg: cfg.clone(), next_txn: 1, seed: sseed, multi: BTreeMap::new() };
                 let mut local = (0u64, 0u64, 0u64, 0u64, 0u64, 0u64, 0u64, 0u64);
                 let mut sigs = BTreeSet::new();
                 let mut nprog = 0u64;
